@@ -1,4 +1,4 @@
 From Coq Require Extraction.
 From Coq Require Import ExtrOcamlBasic.
-From RM Require Import C06.Driver C06.GenDriver C06.ArchDriver.
-Extraction "c06_model.ml" run_mock_gen run_mock_multi_gen run_real_gen run_real2_gen o_status o_cfa o_ra o_regs o_cleared.
+From RM Require Import C06.Driver C06.GenDriver C06.ArchDriver C06.FileTable.
+Extraction "c06_model.ml" run_mock_gen run_mock_multi_gen run_mock_file_gen run_real_gen run_real2_gen o_status o_cfa o_ra o_regs o_cleared.
